@@ -1,4 +1,4 @@
-package props
+package c05
 
 // C05 — Lexing, parsing and analysis are total (DESIGN.md §3 C05).
 //
@@ -11,8 +11,6 @@ package props
 
 import (
 	"fmt"
-	"os"
-	"path/filepath"
 	"sort"
 	"strings"
 
@@ -20,6 +18,7 @@ import (
 
 	"hv/drive"
 	"hv/fw"
+	"hv/util"
 )
 
 type c05 struct{}
@@ -50,21 +49,6 @@ type c05Payload struct {
 	// Extra modules for multi-module oddities
 	Mods map[string]string `json:"m,omitempty"`
 	Gen  string            `json:"g"`
-}
-
-// Corpus reads the .hms files shipped with the repository (seed corpus).
-func Corpus() map[string]string {
-	out := map[string]string{}
-	for _, dir := range []string{"/repo/examples", "/repo/tests"} {
-		files, _ := filepath.Glob(filepath.Join(dir, "*.hms"))
-		for _, f := range files {
-			b, err := os.ReadFile(f)
-			if err == nil {
-				out[filepath.Base(dir)+"/"+filepath.Base(f)] = string(b)
-			}
-		}
-	}
-	return out
 }
 
 var c05Vocab = []string{
@@ -132,7 +116,7 @@ func (c05) Cases(tier string, seed uint64) []fw.Case {
 			n++
 		}
 	}
-	corpus := Corpus()
+	corpus := util.Corpus()
 	names := drive.SortedKeys(corpus)
 
 	// (a) random bytes
@@ -568,14 +552,14 @@ func (c05) Run(c fw.Case) fw.Result {
 	if exceeded {
 		res.Verdict = fw.Violated
 		res.Sig = "lex-budget:" + mode
-		res.Why = fmt.Sprintf("a lexer instance was asked for more than 2*|runes|+16 tokens (non-advancing loop), mode=%s input=%q", mode, clip(string(p.Data), 300))
+		res.Why = fmt.Sprintf("a lexer instance was asked for more than 2*|runes|+16 tokens (non-advancing loop), mode=%s input=%q", mode, util.Clip(string(p.Data), 300))
 	} else if pv != nil {
 		res.Verdict = fw.Violated
-		res.Sig = fmt.Sprintf("go-panic:%s:%s", normPanic(fmt.Sprint(pv)), firstFrame(stack))
-		res.Why = fmt.Sprintf("Go panic %q at %s, mode=%s input=%q", clip(fmt.Sprint(pv), 200), stack, mode, clip(string(p.Data), 300))
+		res.Sig = fmt.Sprintf("go-panic:%s:%s", util.NormPanic(fmt.Sprint(pv)), util.FirstFrame(stack))
+		res.Why = fmt.Sprintf("Go panic %q at %s, mode=%s input=%q", util.Clip(fmt.Sprint(pv), 200), stack, mode, util.Clip(string(p.Data), 300))
 	}
 	if p.Gen == "tower" || p.Gen == "odd" || p.Gen == "edit" {
-		res.Sample = map[string]any{"gen": p.Gen, "mode": mode, "input": clip(string(p.Data), 160), "errors": ao.Errors}
+		res.Sample = map[string]any{"gen": p.Gen, "mode": mode, "input": util.Clip(string(p.Data), 160), "errors": ao.Errors}
 	}
 	return res
 }
@@ -592,43 +576,6 @@ func (c05) OnCrash(c fw.Case, cr fw.Crash) fw.Result {
 		return fw.Result{Verdict: fw.Inconclusive, Why: cr.Kind + ": " + cr.Message}
 	}
 	return fw.Result{Verdict: fw.Violated, Nontrivial: true,
-		Sig: fmt.Sprintf("%s:%s:%s", cr.Kind, normPanic(cr.Message), cr.TopFrame),
-		Why: fmt.Sprintf("worker died (%s: %s) at %s, mode=%s input=%q", cr.Kind, clip(cr.Message, 200), cr.TopFrame, mode, clip(string(p.Data), 300))}
-}
-
-func clip(s string, n int) string {
-	if len(s) > n {
-		return s[:n] + "…"
-	}
-	return s
-}
-
-func firstFrame(stack string) string {
-	if i := strings.Index(stack, " < "); i >= 0 {
-		return stack[:i]
-	}
-	return stack
-}
-
-// normPanic removes the variable parts (numbers, quoted text) of a panic message.
-func normPanic(s string) string {
-	s = drive.FirstLine(s)
-	var sb strings.Builder
-	inDigits := false
-	for _, r := range s {
-		if r >= '0' && r <= '9' {
-			if !inDigits {
-				sb.WriteByte('N')
-			}
-			inDigits = true
-			continue
-		}
-		inDigits = false
-		sb.WriteRune(r)
-	}
-	out := sb.String()
-	if len(out) > 80 {
-		out = out[:80]
-	}
-	return out
+		Sig: fmt.Sprintf("%s:%s:%s", cr.Kind, util.NormPanic(cr.Message), cr.TopFrame),
+		Why: fmt.Sprintf("worker died (%s: %s) at %s, mode=%s input=%q", cr.Kind, util.Clip(cr.Message, 200), cr.TopFrame, mode, util.Clip(string(p.Data), 300))}
 }
